@@ -210,6 +210,8 @@ def convert_sn(desc, seed, cost=None, full_cost=False):
     x = sn_input(desc, seed, 1)
     sn = SuperNet(model, cost=cost if cost is not None else params, input_example=x,
                   full_cost=full_cost)
+    from vf import neutral
+    neutral.maybe_warm(sn, [x], seed)
     return model, sn
 
 
